@@ -302,6 +302,8 @@ where
     ///
     /// This method updates `self.positions` in-place.
     pub fn step(&mut self) {
+        #[cfg(mini_mcmc_verif)]
+        mcmc_sim::sched_point("hmc_step");
         let shape = self.positions.shape();
         let (n_chains, dim) = (shape.dims[0], shape.dims[1]);
 
